@@ -248,6 +248,18 @@ def run(ctx, model_ok):
         sl = [rng.choice(SLOTS) for _ in range(k)]
         s, o = interp_script(ps, sl)
         checks.append(("interp-long", ("interp-long", k, tuple(sorted({x[0] for x in sl}))), s, o, "0"))
+    # text that LOOKS like a slot is text: an escaped `\${x}` before or after the real `${x}`, a slot value that itself
+    # contains `${…}`; interpolation is concatenation by position, never a textual substitution
+    fam = ["\\${x}", "${x}", "${y}", "\\${y}", "{x}", "a", "${x}${y}"]
+    famdec = {"\\${x}": "${x}", "${x}": "1", "${y}": "${x}", "\\${y}": "${y}", "{x}": "{x}", "a": "a", "${x}${y}": "1${x}"}
+    for k in (1, 2, 3):
+        for ps in itertools.product(fam, repeat=k):
+            lit = "".join(ps)
+            if "${" not in lit.replace("\\${", ""):
+                continue
+            val = "".join(famdec[q] for q in ps)
+            src = ('x := "1"\ny := "\\${x}"\n' + f'print($"{lit}")\nprint($"{lit}"->len())\nz := $"{lit}"\nprint(z + "|" + z)\n')
+            checks.append(("interp-lookalike", ("lookalike", k, ps[:2]), src, f"{val}\n{len(val)}\n{val}|{val}\n", "0"))
     # every slot expression alone and between multi-byte text
     for sl in SLOTS:
         for ps in [("", ""), ("é", "😀"), ("\\$", "\\\\"), ("{", "}")]:
@@ -304,7 +316,12 @@ def run(ctx, model_ok):
     bodies = [items for n in range(0, 3) for items in itertools.product(ALPHABET, repeat=n)]
     mal = malformed_cases(rng, bodies, 60 if thorough else 15)
     # every character that is not a hexadecimal digit, in either position of `\xHH`, in plain and interpolated literals
-    for hc in [chr(i) for i in range(32, 127)] + ["\n", "\t", "é"]:
+    # … among them characters beyond ASCII whose code point ends in the byte of a hexadecimal digit (ı = U+0131 ends in '1',
+    # а = U+0430 in '0', 𝟙-like code points …), digits of other scripts and full-width forms: none of them is a digit of `\xHH`
+    lookalikes = [chr(k * 256 + d) for k in (1, 2, 4, 0x1E, 0x30, 0xFF, 0x1F6, 0x2F0) for d in b"0123456789abcdefABCDEF"
+                  if not 0xD800 <= k * 256 + d <= 0xDFFF and chr(k * 256 + d).isprintable()]
+    lookalikes += ["\uFF11", "\uFF21", "\uFF46", "\u0661", "\u0967", "\u00B2", "\u2460", "\U0001D7D9"]
+    for hc in [chr(i) for i in range(32, 127)] + ["\n", "\t", "é"] + (lookalikes if thorough else lookalikes[::3] + lookalikes[-8:]):
         if hc in "0123456789abcdefABCDEF\"":
             continue
         for in_interp in (False, True):
